@@ -12,6 +12,8 @@ META = {
     "note": "POSIX fact: chown(2) clears S_ISUID/S_ISGID on non-directories; the data-transfer primitive and ensure_dirs are snakeoil (trusted base)",
 }
 META["technique"] += "; " + 'generic pack G on the anchored files (optional-flag shift, closures outliving a loop iteration, single-pass iterables consumed twice, %-templates built from data, in-place writes to class-level / memoised objects, generators mutating what they yielded, memo keys that are projections)'
+META["technique"] += "; truth-table decision (boolx) of the lchown guard; constant-True rule for the enforcement switches when no live object is given"
+META["level"] += " R1 also: with no live object given every attribute is enforced, and os.lchown runs iff ownership is to be enforced and at least one id is recorded."
 
 MOD = "pkgcore.fs.ops"
 MUTATORS = {"os.lchown", "os.chown", "os.chmod", "os.utime", "os.mkdir", "os.unlink", "os.link", "os.rename", "os.symlink", "os.mkfifo", "os.mknod", "os.rmdir",
